@@ -35,7 +35,7 @@ type c10Case struct {
 func c10Cases() []c10Case {
 	var cs []c10Case
 	for _, mon := range []bool{false, true} {
-		for _, f := range []string{"read-syscall", "read-other", "write-syscall", "write-other", "timeouts", "link-change", "link-change-then-close"} {
+		for _, f := range []string{"read-syscall", "read-other", "write-syscall", "write-other", "write5-syscall", "write5-other", "timeouts", "link-change", "link-change-then-close", "link-change+rs"} {
 			if mon && strings.HasPrefix(f, "write") {
 				continue
 			}
@@ -64,7 +64,7 @@ func c10Cases() []c10Case {
 }
 
 func c10Recoverable(f string) bool {
-	return f == "read-syscall" || f == "write-syscall" || f == "link-change" || f == "link-change-then-close" || f == "write-unicast-pending-syscall"
+	return f == "read-syscall" || f == "write-syscall" || f == "write5-syscall" || f == "link-change" || f == "link-change+rs" || f == "link-change-then-close" || f == "write-unicast-pending-syscall"
 }
 
 func c10Scenario(c c10Case) *vsched.Scenario {
@@ -116,10 +116,17 @@ func c10Scenario(c c10Case) *vsched.Scenario {
 					return other
 				}
 				nw++
-				if nw == 3 { // initial RA, first periodic RA, then this one fails
+				// initial RA, first periodic RA, then this one fails; "write5-*": the RAs at 3, 6
+				// and 9 s were held back by the rate limit, the one at 12 s is the first that is
+				// due at once (no timer in between).
+				failAt := 3
+				if strings.HasPrefix(c.Fault, "write5") {
+					failAt = 5
+				}
+				if nw == failAt {
 					faultAt = w.now()
 					vsched.Obs("fault", "%s", c.Fault)
-					if c.Fault == "write-syscall" {
+					if strings.HasSuffix(c.Fault, "syscall") {
 						return os.NewSyscallError("sendmsg", syscall.ENETDOWN)
 					}
 					return other
@@ -145,6 +152,11 @@ func c10Scenario(c c10Case) *vsched.Scenario {
 					}
 				case "link-change":
 					vsched.Send("harness:link-change", watchC, netstate.LinkDown)
+				case "link-change+rs":
+					// A solicitation is read from the socket just as the link change ends the
+					// session (the scheduler may already have stopped consuming requests).
+					vsched.Send("harness:link-change", watchC, netstate.LinkDown)
+					inject(rsFrom("fe80::5", true))
 				case "link-change-then-close":
 					// The watcher reports a change and then halts (closes its channels).
 					vsched.Send("harness:link-change", watchC, netstate.LinkDown)
@@ -154,8 +166,11 @@ func c10Scenario(c c10Case) *vsched.Scenario {
 					inject(rsFrom("::", false))           // its answer is held back until 9s
 					vsched.Sleep(100 * time.Millisecond)
 					inject(rsFrom("fe80::5", true)) // this answer's transmission fails
-				default: // write faults happen on the periodic RA due at 6s
+				default: // write faults happen on the periodic RA due at 6s (write5: at 12s)
 					vsched.Sleep(time.Second)
+					if strings.HasPrefix(c.Fault, "write5") {
+						vsched.Sleep(6 * time.Second)
+					}
 				}
 				switch c.CancelAt {
 				case "after-fault":
